@@ -1,5 +1,6 @@
 (* Model of codec/plain_codec.go: PlainCodec.Marshal / Unmarshal, formatProperType,
    parseProperType.  Definitions only.  Go panics are an explicit outcome.
+   Definitions without suffix follow the REPAIRED code of /repo, [_prefix] the code as pinned.
    Floats are not modelled (strconv's shortest-representation printing); they are tested only. *)
 From Coq Require Import Strings.String Strings.Byte.
 From Coq Require Import List Arith NArith ZArith Bool Lia.
@@ -103,17 +104,23 @@ Inductive pdst :=
 | DRefl (l : leaf).      (* default case: reflection *)
 
 (* plain_codec.go:PlainCodec.Unmarshal; the result is the destination's content afterwards
-   ([None] for the nil interface) *)
-Definition plain_unmarshal (data : bytes) (d : pdst) : outcome (option leaf) :=
+   ([None] for the nil interface).  [nildst] is what happens when the destination itself is a
+   nil *string / *[]byte: the repaired code (commit 18d16e2) returns an error, the pinned code
+   dereferenced nil. *)
+Definition plain_unmarshal_gen (nildst : outcome (option leaf)) (data : bytes) (d : pdst)
+  : outcome (option leaf) :=
   match d with
   | DNil => Ok None
   | DStr => Ok (Some (LStr data))
-  | DStrNil => Panic
+  | DStrNil => nildst
   | DSlice old => Ok (Some (LBytes (copy_into old data)))
   | DBytes => Ok (Some (LBytes data))
-  | DBytesNil => Panic
+  | DBytesNil => nildst
   | DRefl l => match parse_into data l false with Some l' => Ok (Some l') | None => Err end
   end.
+
+Definition plain_unmarshal := plain_unmarshal_gen Err.
+Definition plain_unmarshal_prefix := plain_unmarshal_gen Panic.
 
 (* ---- vocabulary of the round-trip statement ---- *)
 Fixpoint leaf_zero (l : leaf) : leaf :=
